@@ -121,6 +121,9 @@ func loadRepo(dir string) (*Verifier, error) {
 			for k, ps := range c.Props {
 				v.contracts.Props[k] = append(v.contracts.Props[k], ps...)
 			}
+			for k, g := range c.Guards {
+				v.contracts.Guards[pk.name+"."+k] = g
+			}
 			v.contracts.Files = append(v.contracts.Files, m)
 		}
 	}
@@ -175,7 +178,7 @@ func (v *Verifier) methNum(name string) int {
 }
 
 func (v *Verifier) typeID(t types.Type) int {
-	k := types.TypeString(t, nil)
+	k := strings.ReplaceAll(types.TypeString(types.Unalias(t), nil), "uint8", "byte")
 	if n, ok := v.typeIDs[k]; ok {
 		return n
 	}
@@ -467,6 +470,7 @@ func (v *Verifier) verifyFunc(key string) (rep *FuncReport) {
 			for _, n := range f.Names {
 				if o := info.Defs[n]; o != nil {
 					fx.results = append(fx.results, o)
+					fx.namedResults = true
 					fx.declare(st, o, Val{T: o.Type(), S: fx.d.sortOf(o.Type()), X: fx.d.zeroOf(o.Type())})
 				}
 			}
@@ -495,15 +499,30 @@ func (v *Verifier) verifyFunc(key string) (rep *FuncReport) {
 	fx.obls = append(fx.obls, &Obligation{Name: key + "/vacuity:pre", Kind: "vacuity", Assume: append([]string(nil), st.pc...), Goal: "false", Func: key, Expect: "sat"})
 	entry := st.clone()
 	st.old = entry
-	outs := fx.execBlock(st, body.List)
-	var canary *Obligation
-	for _, o := range outs {
-		if o.kind == kPanic {
-			continue
-		}
-		if o.kind != kReturn && o.kind != kNormal {
+	outs0 := fx.execBlock(st, body.List)
+	// deferred calls run at every exit, also when the function panics
+	var outs []Outcome
+	for _, o := range outs0 {
+		if o.kind != kReturn && o.kind != kNormal && o.kind != kPanic {
 			panic(unsupported("break/continue at function level"))
 		}
+		for _, ds := range fx.runDefers(o.st, 0) {
+			k := o.kind
+			if k == kPanic {
+				if ds.panicVal != "" {
+					fx.oblige(ds, "panic", "escapes", "false", "a panic leaves the function")
+					continue
+				}
+				k = kReturn // recovered: returns the named results
+				ds.retVals = nil
+			} else if len(fx.results) > 0 && fx.namedResults {
+				ds.retVals = nil // named results may have been changed by deferred calls
+			}
+			outs = append(outs, Outcome{st: ds, kind: k})
+		}
+	}
+	var canary *Obligation
+	for _, o := range outs {
 		fx.paths++
 		fs := o.st
 		if o.kind == kNormal && len(fx.results) > 0 && len(fs.retVals) == 0 {
